@@ -6,9 +6,7 @@ package linkedhashmap
 
 import (
 	"bytes"
-	"cmp"
 	"encoding/json"
-	"slices"
 
 	"github.com/emirpasic/gods/v2/containers"
 )
@@ -82,19 +80,33 @@ func (m *Map[K, V]) FromJSON(data []byte) error {
 		return err
 	}
 
-	index := make(map[K]int)
+	// Keys in order of first appearance, read from the token stream. (Searching
+	// the raw text for each key would mistake values, or parts of other keys,
+	// for the key.)
 	var keys []K
-	for key := range elements {
-		keys = append(keys, key)
-		esc, _ := json.Marshal(key)
-		index[key] = bytes.Index(data, esc)
+	seen := make(map[K]struct{}, len(elements))
+	decoder := json.NewDecoder(bytes.NewReader(data))
+	if token, _ := decoder.Token(); token == json.Delim('{') {
+		for decoder.More() {
+			name, _ := decoder.Token()
+			var value json.RawMessage
+			if err := decoder.Decode(&value); err != nil {
+				return err
+			}
+			// decode the member name the way encoding/json decodes map keys
+			quoted, _ := json.Marshal(name)
+			member := make(map[K]V, 1)
+			if err := json.Unmarshal([]byte("{"+string(quoted)+":null}"), &member); err != nil {
+				return err
+			}
+			for key := range member {
+				if _, ok := seen[key]; !ok {
+					seen[key] = struct{}{}
+					keys = append(keys, key)
+				}
+			}
+		}
 	}
-
-	byIndex := func(key1, key2 K) int {
-		return cmp.Compare(index[key1], index[key2])
-	}
-
-	slices.SortFunc(keys, byIndex)
 
 	m.Clear()
 
